@@ -7,10 +7,17 @@ package main
 
 import (
 	"fmt"
+	"regexp"
 	"strings"
 
 	"verifharness/h"
 )
+
+// c01SwAvoid switches off syntactic forms that fall under known findings of the minifier (see c01SwClassify for the
+// keys).  When a key is true the generator never emits that form and c01SweepFixed skips the programs tagged with it.
+var c01SwAvoid = map[string]bool{}
+
+func c01SwAv(key string) bool { return c01SwAvoid[key] }
 
 var c01SwHostFns = []string{"f", "g", "h", "k"}
 var c01SwPoolVars = []string{"a", "b", "c", "d", "e", "p", "q", "r", "s", "t", "u", "v", "w", "x", "y", "z"}
@@ -47,12 +54,13 @@ const (
 )
 
 type c01SwFunc struct {
-	name   string
-	np     int
-	ptypes []int // 0 any, 1 object pattern, 2 array pattern
-	kind   int
-	cost   int
-	retFn  bool // returns a closure: result only used in call position
+	name     string
+	np       int
+	ptypes   []int // 0 any, 1 object pattern, 2 array pattern
+	kind     int
+	cost     int
+	retFn    bool     // returns a closure: result only used in call position
+	defNames []string // simple parameters with a default value
 }
 
 type c01SwClass struct {
@@ -79,6 +87,7 @@ type c01SwScope struct {
 	lex        map[string]bool
 	used       map[string]bool
 	noShadow   bool
+	noDecl     bool // S11: no lexical / function / class declaration directly in this block
 }
 
 type c01SwLabel struct {
@@ -93,6 +102,8 @@ type c01SwFctx struct {
 	async     bool
 	argsOK    bool
 	ntOK      bool // new.target allowed
+	noVar     bool // direct body of a class static block: no `var` (S5)
+	noIf      bool // direct body of a class static block: no `if` (S6)
 	superOK   bool
 	labels    []c01SwLabel
 	loops     int
@@ -106,17 +117,20 @@ type c01SwFctx struct {
 }
 
 type c01SwG struct {
-	r        *h.RNG
-	uid      int
-	scopes   []*c01SwScope
-	fx       []*c01SwFctx
-	banned   map[string]int
-	strict   bool
-	inParams int
-	inClass  int
-	priv     [][]string
-	nodes    int
-	maxNodes int
+	r          *h.RNG
+	uid        int
+	scopes     []*c01SwScope
+	fx         []*c01SwFctx
+	banned     map[string]int
+	strict     bool
+	inParams   int
+	inClass    int
+	inArgs     int // inside a call argument list (see args)
+	inStatic   int // inside a class static block (nested functions included)
+	staticBase int // index of the first scope of the innermost static block
+	priv       [][]string
+	nodes      int
+	maxNodes   int
 }
 
 func (g *c01SwG) chance(p int) bool { return g.r.Chance(p) }
@@ -296,15 +310,33 @@ func (g *c01SwG) assignable() string {
 		if g.banned[name] > 0 || name == "undefined" || name == "NaN" || name == "Infinity" {
 			continue
 		}
+		if g.staticOuter(name) {
+			continue
+		}
 		g.use(name)
 		return name
 	}
 	n := g.pick(c01SwPoolVars[:5])
-	if v := g.lookup(n); v != nil && (v.ro || v.fn != nil || v.cls != nil || v.inst != nil) || g.banned[n] > 0 {
+	if v := g.lookup(n); v != nil && (v.ro || v.fn != nil || v.cls != nil || v.inst != nil) || g.banned[n] > 0 || g.staticOuter(n) {
 		return "o1.x"
 	}
 	g.use(n)
 	return n
+}
+
+// staticOuter: (S5) inside a class static block, is name a binding declared outside of that block?
+func (g *c01SwG) staticOuter(name string) bool {
+	if g.inStatic == 0 || !c01SwAv("S5-static-var") {
+		return false
+	}
+	for i := len(g.scopes) - 1; i >= 0; i-- {
+		for _, v := range g.scopes[i].vars {
+			if v.name == name {
+				return i < g.staticBase
+			}
+		}
+	}
+	return false
 }
 
 func c01SwWrap(s string, have, want int) string {
@@ -351,7 +383,12 @@ func (g *c01SwG) str() string {
 	if g.chance(40) {
 		return g.pick(c01SwStrs[:8])
 	}
-	return g.pick(c01SwStrs)
+	st := g.pick(c01SwStrs)
+	if c01SwAv("S9-line-continuation") && st == "\"\\\n\"" {
+		st = `"a\
+b"`
+	}
+	return st
 }
 
 var c01SwRegexes = []string{`/a+b/g`, `/[/]/`, `/\//`, `/[\]/]/`, `/(?<n>a)|b/u`, `/a/gimsuy`, `/^s$/`, `/[^a-z0-9]/i`, `/\d+\.\d*/`, `/(a)(b)?/`, `/[/\\]/g`,
@@ -366,7 +403,11 @@ var c01SwUndeclared = []string{"zz9", "undeclared1", "window", "nope", "module",
 func (g *c01SwG) hostFn() string { return g.pick(c01SwHostFns) }
 
 // args produces a call argument list (without parentheses)
+// V8 rejects a valid destructuring assignment that stands unparenthesised in an argument list after an argument that
+// is not itself a valid pattern (`h([0], [] = 0)`); a minifier legitimately removes the parentheses, so none is generated there.
 func (g *c01SwG) args(d, max int) string {
+	g.inArgs++
+	defer func() { g.inArgs-- }()
 	n := g.intn(max + 1)
 	parts := make([]string, 0, n)
 	for i := 0; i < n; i++ {
@@ -724,6 +765,8 @@ func (g *c01SwG) callText(fn *c01SwFunc, d int) string {
 	fc := g.f()
 	fc.cost += fc.mult * fn.cost
 	g.use(fn.name)
+	g.inArgs++
+	defer func() { g.inArgs-- }()
 	var parts []string
 	n := fn.np
 	if g.chance(15) {
@@ -938,7 +981,7 @@ func (g *c01SwG) expr1(d int) (string, int) {
 	case k < 66: // conditional
 		return g.expr(d-1, c01SwPOr) + " ? " + g.expr(d-1, c01SwPAssign) + " : " + g.expr(d-1, c01SwPAssign), c01SwPCond
 	case k < 75: // assignment
-		if d > 1 && g.chance(15) {
+		if d > 1 && g.chance(15) && g.inArgs == 0 {
 			arr := g.chance(50)
 			pat := g.pattern(2, false, nil, arr)
 			s := pat + " = " + g.patternSource(d, arr)
@@ -959,6 +1002,9 @@ func (g *c01SwG) expr1(d int) (string, int) {
 		return "--" + t, c01SwPUnary
 	case k < 84: // unary
 		op := g.pick([]string{"!", "-", "+", "~", "typeof ", "void ", "!", "-", "!!"})
+		if op == "void " && c01SwAv("K3-pure-binary") {
+			op = "!"
+		}
 		e := g.expr(d-1, c01SwPUnary)
 		if (op == "-" || op == "+") && (strings.HasPrefix(e, op)) {
 			e = " " + e
@@ -1125,12 +1171,15 @@ func (g *c01SwG) params(d int, fn *c01SwFunc, form string) string {
 			switch k := g.intn(100); {
 			case k < 45:
 				nm = g.pick(c01SwPoolVars)
-			case k < 50 && form != "arrow" && !g.strict:
+			case k < 50 && form != "arrow" && !g.strict && !c01SwAv("S7-shadow-global"):
 				nm = g.pick([]string{"undefined", "NaN", "Infinity"})
 			default:
 				nm = g.fresh("p")
 			}
-			if !seen[nm] && g.banned[nm] == 0 {
+			if (nm == "undefined" || nm == "NaN" || nm == "Infinity") && strings.Contains(strings.Join(parts, ","), nm) {
+				continue // an earlier default reads the global of that name (TDZ)
+			}
+			if !seen[nm] && g.banned[nm] == 0 && !g.cur().used[nm] { // not read by the default of an earlier parameter (TDZ)
 				seen[nm] = true
 				return nm
 			}
@@ -1158,6 +1207,7 @@ func (g *c01SwG) params(d int, fn *c01SwFunc, form string) string {
 			nm := name()
 			parts = append(parts, nm+" = "+g.expr(c01SwMin(d-1, 2), c01SwPAssign))
 			declare(nm)
+			fn.defNames = append(fn.defNames, nm)
 			fn.ptypes = append(fn.ptypes, 0)
 			simple = false
 		case k < 50 && d > 0:
@@ -1200,13 +1250,20 @@ func (g *c01SwG) params(d int, fn *c01SwFunc, form string) string {
 func (g *c01SwG) function(d, kind int, name string, fc *c01SwFctx, form string) (string, *c01SwFunc) {
 	fc.gen = kind == c01SwFnGen
 	fc.async = kind == c01SwFnAsync || fc.async
+	inArgs := g.inArgs
+	g.inArgs = 0
+	defer func() { g.inArgs = inArgs }()
 	g.pushF(fc)
 	g.push(true)
 	fn := &c01SwFunc{name: name, kind: kind}
 	ptxt := g.params(d, fn, form)
+	s1 := c01SwAv("S1-param-default") && len(fn.defNames) > 0
+	if s1 {
+		fc.argsOK = false // a dropped default would change the aliasing of `arguments`
+	}
 	var txt string
 	if form == "arrow" {
-		if g.chance(50) {
+		if g.chance(50) && !s1 {
 			e := g.expr(d, c01SwPAssign)
 			if strings.HasPrefix(e, "{") {
 				e = "(" + e + ")"
@@ -1243,13 +1300,16 @@ func (g *c01SwG) body(d int, fn *c01SwFunc) string {
 		g.declVar(&c01SwVar{name: nm})
 	}
 	var list []c01SwStmt
-	if g.chance(6) && !g.strict && len(fc.shadowed) == 0 {
+	if g.chance(6) && !g.strict && len(fc.shadowed) == 0 && !c01SwAv("S7-shadow-global") {
 		w := g.pick([]string{"undefined", "NaN", "Infinity"})
 		if fc.kinds[w] == 0 {
 			fc.shadowed[w] = true
 			g.declVar(&c01SwVar{name: w})
 			list = append(list, c01SwStmt{"var " + w + " = " + g.atom(c01SwPAssign), true})
 		}
+	}
+	if pre := g.s1Use(fn); pre != "" {
+		list = append(list, c01SwStmt{pre, true})
 	}
 	n := 1 + g.intn(4)
 	list = append(list, g.stmtList(d, n, true)...)
@@ -1271,7 +1331,7 @@ func (g *c01SwG) body(d int, fn *c01SwFunc) string {
 			}
 			fn.retFn = true
 		} else {
-			list = append(list, c01SwStmt{"return " + g.expr(c01SwMin(d, 3), c01SwPComma), true})
+			list = append(list, c01SwStmt{"return " + g.retVal(c01SwMin(d, 3)), true})
 		}
 	}
 	for _, nm := range fc.planned {
@@ -1279,6 +1339,31 @@ func (g *c01SwG) body(d int, fn *c01SwFunc) string {
 	}
 	fc.planned = nil
 	return "{" + g.join(list, true) + "}"
+}
+
+// s1Use: (S1) a statement that uses every simple parameter that has a default value
+func (g *c01SwG) s1Use(fn *c01SwFunc) string {
+	if fn == nil || len(fn.defNames) == 0 || !c01SwAv("S1-param-default") {
+		return ""
+	}
+	for _, nm := range fn.defNames {
+		g.use(nm)
+	}
+	return g.hostFn() + "(" + strings.Join(fn.defNames, ", ") + ")"
+}
+
+// retVal produces the operand of a return statement; (K1) never a literal undefined / void
+func (g *c01SwG) retVal(d int) string {
+	if !c01SwAv("K1-return-undefined") {
+		return g.expr(d, c01SwPComma)
+	}
+	for try := 0; try < 6; try++ {
+		e := g.expr(d, c01SwPAssign)
+		if !strings.Contains(e, "undefined") && !strings.Contains(e, "void") {
+			return e
+		}
+	}
+	return g.hostFn() + "(" + g.readable() + ")"
 }
 
 // fnBody produces a whole small function body for accessors: pushes context and scope itself
@@ -1292,7 +1377,7 @@ func (g *c01SwG) fnBody(d int, fc *c01SwFctx, params []string, n int) string {
 	}
 	list := g.stmtList(c01SwMin(d, 2), g.intn(n), true)
 	if len(params) == 0 {
-		list = append(list, c01SwStmt{"return " + g.expr(c01SwMin(d, 2), c01SwPComma), true})
+		list = append(list, c01SwStmt{"return " + g.retVal(c01SwMin(d, 2)), true})
 	} else {
 		list = append(list, c01SwStmt{g.hostFn() + "(" + params[0] + ")", true})
 	}
@@ -1405,8 +1490,14 @@ func (g *c01SwG) classDecl(d int) (string, *c01SwVar) {
 			fn := &c01SwFunc{}
 			ptxt := g.params(d, fn, "ctor")
 			var list []c01SwStmt
+			if c01SwAv("S1-param-default") && len(fn.defNames) > 0 {
+				fc.argsOK = false
+			}
 			if derived {
 				list = append(list, c01SwStmt{"super(" + g.args(c01SwMin(d, 2), 2) + ")", true})
+			}
+			if pre := g.s1Use(fn); pre != "" {
+				list = append(list, c01SwStmt{pre, true})
 			}
 			list = append(list, c01SwStmt{"this." + g.pick(c01SwKeys) + " = " + g.expr(c01SwMin(d, 2), c01SwPAssign), true})
 			list = append(list, g.stmtList(c01SwMin(d, 2), g.intn(3), true)...)
@@ -1467,20 +1558,27 @@ func (g *c01SwG) classDecl(d int) (string, *c01SwVar) {
 			parts = append(parts, mname+"(...r) { return this."+pm+"(...r) }")
 			c.methods = append(c.methods, mname)
 		case k < 88:
-			fc := &c01SwFctx{argsOK: false, superOK: true, ntOK: true, limit: 20}
+			fc := &c01SwFctx{argsOK: false, superOK: true, ntOK: true, limit: 20, noVar: c01SwAv("S5-static-var"), noIf: c01SwAv("S6-static-if")}
 			g.pushF(fc)
 			g.push(true)
-			list := g.stmtList(c01SwMin(d, 2), 1+g.intn(2), true)
+			oldBase := g.staticBase
+			g.staticBase = len(g.scopes) - 1
+			g.inStatic++
+			// S12: a lexical declaration directly in a static block is neither renamed nor reserved by the renamer
+			g.cur().noDecl = c01SwAv("S12-static-lexical")
+			list := g.stmtList(c01SwMin(d, 2), 1+g.intn(2), !c01SwAv("S12-static-lexical"))
 			for _, nm := range fc.planned {
 				list = append(list, c01SwStmt{"var " + nm, true})
 			}
+			g.inStatic--
+			g.staticBase = oldBase
 			g.pop()
 			g.popF()
 			parts = append(parts, "static {"+g.join(list, true)+"}")
 		case k < 92:
-			parts = append(parts, "["+g.expr(c01SwMin(d, 2), c01SwPAssign)+"]() { return "+g.atom(c01SwPAssign)+" }")
+			parts = append(parts, "["+g.expr(c01SwMin(d, 2), c01SwPAssign)+"]() { return "+g.pick([]string{"1", g.readable(), g.str()})+" }")
 		default:
-			parts = append(parts, "static "+g.pick([]string{"sm", "sn"})+"() { return "+g.expr(c01SwMin(d, 2), c01SwPComma)+" }")
+			parts = append(parts, "static "+g.pick([]string{"sm", "sn"})+"() { return "+g.retVal(c01SwMin(d, 2))+" }")
 		}
 	}
 	v := &c01SwVar{name: name, ro: true, cls: c}
@@ -1560,9 +1658,14 @@ func (g *c01SwG) stmtList(d, n int, fnLevel bool) []c01SwStmt {
 }
 
 // block produces "{ … }" with a fresh block scope; tail: optional jump statement appended
-func (g *c01SwG) block(d, n int, tail string) string {
+func (g *c01SwG) block(d, n int, tail string) string { return g.blockND(d, n, tail, false) }
+
+// blockND: noDecl — (S11) declarations are wrapped in an inner block instead of standing directly in this block
+func (g *c01SwG) blockND(d, n int, tail string, noDecl bool) string {
 	g.push(false)
+	g.cur().noDecl = noDecl
 	list := g.stmtList(d, n, false)
+	list = g.notLone(list)
 	if tail != "" {
 		list = append(list, c01SwStmt{tail, true})
 	}
@@ -1570,12 +1673,43 @@ func (g *c01SwG) block(d, n int, tail string) string {
 	return "{" + g.join(list, true) + "}"
 }
 
+func c01SwIsDecl(t string) bool {
+	for _, kw := range []string{"let ", "let[", "let{", "const ", "const[", "const{", "class ", "function ", "function*", "async function"} {
+		if strings.HasPrefix(t, kw) {
+			return true
+		}
+	}
+	return false
+}
+
+// notLone: (S10) a block never consists of a single declaration
+func (g *c01SwG) notLone(list []c01SwStmt) []c01SwStmt {
+	if !c01SwAv("S10-lone-decl") {
+		return list
+	}
+	n, decl := 0, false
+	for _, s := range list {
+		if s.text != "" {
+			n++
+			decl = c01SwIsDecl(s.text)
+		}
+	}
+	if n == 1 && decl {
+		list = append(list, c01SwExprStmt(g.hostFn()+"("+g.atom(c01SwPAssign)+")"))
+	}
+	return list
+}
+
 // jump produces a jump statement valid here ("" if none chosen)
 func (g *c01SwG) jump(d int) string {
 	fc := g.f()
 	var opts []string
 	if fc.canReturn {
-		opts = append(opts, "return", "return "+g.expr(c01SwMin(d, 2), c01SwPComma))
+		if c01SwAv("K1-return-undefined") {
+			opts = append(opts, "return "+g.retVal(c01SwMin(d, 2)), "return "+g.retVal(c01SwMin(d, 2)))
+		} else {
+			opts = append(opts, "return", "return "+g.expr(c01SwMin(d, 2), c01SwPComma))
+		}
 	}
 	if fc.loops > 0 || fc.switches > 0 {
 		opts = append(opts, "break")
@@ -1619,10 +1753,11 @@ func (g *c01SwG) loopBody(d, bound int, label string, pre string) string {
 		list = append(list, c01SwStmt{pre, true})
 	}
 	list = append(list, g.stmtList(d-1, 1+g.intn(3), false)...)
-	if g.chance(25) {
+	if g.chance(25) && !fc.noIf {
 		list = append(list, c01SwStmt{"if (" + g.cond(d) + ") " + g.jump(d), true})
 		list = append(list, g.stmt(d-1, false)...)
 	}
+	list = g.notLone(list)
 	g.pop()
 	if label != "" {
 		fc.labels = fc.labels[:len(fc.labels)-1]
@@ -1659,8 +1794,14 @@ func (g *c01SwG) useFn(v *c01SwVar, d int) []c01SwStmt {
 		}
 		it := g.fresh("it")
 		call := g.callText(fn, ed)
-		g.declLexOrVar(it)
-		return []c01SwStmt{{"var " + it + " = " + call, true}, c01SwExprStmt(g.hostFn() + "(" + it + ".next().value, " + it + ".next(" + g.atom(c01SwPAssign) + "), " + it + ".return(7), " + it + ".next().done)")}
+		kw := "var "
+		if fc.noVar {
+			kw = "const "
+			g.declLex(&c01SwVar{name: it, ro: true})
+		} else {
+			g.declLexOrVar(it)
+		}
+		return []c01SwStmt{{kw + it + " = " + call, true}, c01SwExprStmt(g.hostFn() + "(" + it + ".next().value, " + it + ".next(" + g.atom(c01SwPAssign) + "), " + it + ".return(7), " + it + ".next().done)")}
 	case c01SwFnAsync:
 		r := g.fresh("r")
 		return []c01SwStmt{c01SwExprStmt(g.callText(fn, ed) + ".then(" + r + " => " + g.hostFn() + "(" + r + ")).catch(" + r + " => " + g.hostFn() + "(\"rej\", " + r + "))")}
@@ -1705,7 +1846,30 @@ func (g *c01SwG) useClass(v *c01SwVar, d int) []c01SwStmt {
 	return out
 }
 
+// stmt produces one statement (sometimes a declaration followed by its uses).  In a block marked noDecl (S11) a
+// result that would declare something directly in the block is discarded and replaced by a host call.
 func (g *c01SwG) stmt(d int, fnLevel bool) []c01SwStmt {
+	if !g.cur().noDecl {
+		return g.stmt1(d, fnLevel)
+	}
+	fc := g.f()
+	fs := g.fnScope()
+	nvars := len(fs.vars)
+	planned := append([]string(nil), fc.planned...)
+	g.push(false)
+	list := g.stmt1(d, false)
+	g.pop()
+	for _, st := range list {
+		if c01SwIsDecl(st.text) {
+			fs.vars = fs.vars[:nvars]
+			fc.planned = planned
+			return []c01SwStmt{c01SwExprStmt(g.hostFn() + "(" + g.args(1, 2) + ")")}
+		}
+	}
+	return list
+}
+
+func (g *c01SwG) stmt1(d int, fnLevel bool) []c01SwStmt {
 	g.nodes++
 	fc := g.f()
 	fc.cost += fc.mult
@@ -1714,10 +1878,20 @@ func (g *c01SwG) stmt(d int, fnLevel bool) []c01SwStmt {
 	}
 	ed := c01SwMin(d, 3)
 	k := g.intn(100)
+	if fc.noIf && (k >= 34 && k < 44 || k >= 69 && k < 72) {
+		k = 0
+	}
 	switch {
 	case k < 20: // expression statement
 		if g.chance(60) {
 			return []c01SwStmt{c01SwExprStmt(g.hostFn() + "(" + g.args(ed, 3) + ")")}
+		}
+		if c01SwAv("K3-pure-binary") { // a discarded value is always an assignment, update or call
+			e, p := g.expr1(ed)
+			if p != c01SwPAssign && p != c01SwPCall && p != c01SwPUpdate {
+				e = g.hostFn() + "(" + c01SwWrap(e, p, c01SwPAssign) + ")"
+			}
+			return []c01SwStmt{c01SwExprStmt(e)}
 		}
 		return []c01SwStmt{c01SwExprStmt(g.expr(ed, c01SwPComma))}
 	case k < 34:
@@ -1763,7 +1937,7 @@ func (g *c01SwG) stmt(d int, fnLevel bool) []c01SwStmt {
 			txt, fn = g.function(d-1, c01SwFnPlain, nm, inner, "expr")
 			txt = "function" + g.pick([]string{"", " " + g.fresh("n")}) + txt
 		}
-		kw := g.pick([]string{"const", "let", "var"})
+		kw := g.kwLCV()
 		v := &c01SwVar{name: nm, ro: true, fn: fn}
 		if kw == "var" {
 			g.declVar(v)
@@ -1783,7 +1957,7 @@ func (g *c01SwG) stmt(d int, fnLevel bool) []c01SwStmt {
 			out = append(out, c01SwExprStmt(g.hostFn()+"("+g.instanceUse(iv, c01SwMin(d, 2))+")"))
 		}
 		return out
-	case k < 98:
+	case k < 98 && !c01SwAv("K3-pure-binary"):
 		return []c01SwStmt{{"", false}, {";", false}}
 	}
 	return []c01SwStmt{c01SwExprStmt(g.hostFn() + "(" + g.args(ed, 3) + ")")}
@@ -1793,6 +1967,9 @@ func (g *c01SwG) declStmt(d int) []c01SwStmt {
 	fc := g.f()
 	ed := c01SwMin(d, 3)
 	k := g.intn(100)
+	if fc.noVar && k < 30 {
+		k = 30 + g.intn(40)
+	}
 	switch {
 	case k < 30: // var (planned, redeclared or fresh)
 		var nm string
@@ -1806,7 +1983,7 @@ func (g *c01SwG) declStmt(d int) []c01SwStmt {
 					nm = v.name
 				}
 			}
-		case g.chance(25) && !fc.top:
+		case g.chance(25) && !fc.top && !(g.inStatic > 0 && c01SwAv("S5-static-var")):
 			nm = g.pick(c01SwPoolVars)
 			if !g.canVar(nm) || g.lookupLexBetween(nm) {
 				nm = ""
@@ -1859,7 +2036,7 @@ func (g *c01SwG) declStmt(d int) []c01SwStmt {
 		var names []string
 		pat := g.pattern(2, true, &names, arr)
 		src := g.patternSource(ed, arr)
-		kw := g.pick([]string{"let", "const", "var"})
+		kw := g.kwLCV()
 		for _, nm := range names {
 			if kw == "var" {
 				g.declVar(&c01SwVar{name: nm})
@@ -1867,7 +2044,11 @@ func (g *c01SwG) declStmt(d int) []c01SwStmt {
 				g.declLex(&c01SwVar{name: nm, ro: kw == "const"})
 			}
 		}
-		return []c01SwStmt{{kw + " " + pat + " = " + src, true}}
+		out := []c01SwStmt{{kw + " " + pat + " = " + src, true}}
+		if c01SwAv("S3-destructure-block") && kw != "var" && len(names) > 0 { // every binding is used: the declaration cannot be dropped
+			out = append(out, c01SwExprStmt(g.hostFn()+"("+strings.Join(names, ", ")+")"))
+		}
+		return out
 	}
 }
 
@@ -1887,13 +2068,30 @@ func (g *c01SwG) lookupLexBetween(name string) bool {
 func (g *c01SwG) ifStmt(d int) []c01SwStmt {
 	var b strings.Builder
 	n := 1 + g.intn(3)
+	hasElse := g.chance(60)
+	flow := make([]bool, n+1)
+	anyFlow := false
+	for i := 0; i < n; i++ {
+		flow[i] = g.chance(45)
+		anyFlow = anyFlow || flow[i]
+	}
+	if hasElse {
+		flow[n] = g.chance(25)
+		anyFlow = anyFlow || flow[n]
+	}
+	// S11: when one branch ends in a flow statement the minifier flattens its siblings into the enclosing block
+	noDecl := anyFlow && c01SwAv("S11-else-lexical")
+	min := 0
+	if c01SwAv("K3-pure-binary") {
+		min = 1 // no `if (cond) {}` whose condition would be dropped
+	}
 	for i := 0; i < n; i++ {
 		if i > 0 {
 			b.WriteString(g.pick([]string{" else ", "\nelse "}))
 		}
 		b.WriteString("if (" + g.cond(d) + ") ")
 		tail := ""
-		if g.chance(45) {
+		if flow[i] {
 			tail = g.jump(d)
 		}
 		if tail == "" && g.chance(20) {
@@ -1901,21 +2099,37 @@ func (g *c01SwG) ifStmt(d int) []c01SwStmt {
 		} else if tail != "" && g.chance(25) {
 			b.WriteString(tail + ";")
 		} else {
-			b.WriteString(g.block(d-1, g.intn(3), tail))
+			b.WriteString(g.blockND(d-1, min+g.intn(3-min), tail, noDecl))
 		}
 	}
-	if g.chance(60) {
+	if hasElse {
 		tail := ""
-		if g.chance(25) {
+		if flow[n] {
 			tail = g.jump(d)
 		}
-		b.WriteString(" else " + g.block(d-1, 1+g.intn(2), tail))
+		b.WriteString(" else " + g.blockND(d-1, 1+g.intn(2), tail, noDecl))
 	}
 	out := []c01SwStmt{{b.String(), false}}
 	if g.chance(50) {
 		out = append(out, g.stmt(d-1, false)...)
 	}
 	return out
+}
+
+// kwLCV / kwLV pick a declaration keyword; `var` is not available directly inside a class static block (S5)
+func (g *c01SwG) kwLCV() string {
+	kw := g.pick([]string{"let", "const", "var"})
+	if kw == "var" && g.f().noVar {
+		kw = "let"
+	}
+	return kw
+}
+func (g *c01SwG) kwLV() string {
+	kw := g.pick([]string{"let", "var", "let"})
+	if kw == "var" && g.f().noVar {
+		kw = "let"
+	}
+	return kw
 }
 
 func (g *c01SwG) loopStmt(d int) []c01SwStmt {
@@ -1930,10 +2144,14 @@ func (g *c01SwG) loopStmt(d int) []c01SwStmt {
 		lp = label + ": "
 	}
 	ed := c01SwMin(d, 2)
-	switch g.intn(8) {
+	form := g.intn(8)
+	if fc.noVar && form >= 5 {
+		form = 0 // the other loop forms need a `var` counter
+	}
+	switch form {
 	case 0, 1: // for with let / var counter
 		i := g.fresh("i")
-		kw := g.pick([]string{"let", "var", "let"})
+		kw := g.kwLV()
 		g.push(false)
 		if kw == "var" {
 			g.declVar(&c01SwVar{name: i, ro: true})
@@ -1954,7 +2172,7 @@ func (g *c01SwG) loopStmt(d int) []c01SwStmt {
 		kname := g.fresh("k")
 		src := g.pick([]string{"o1", "o2", "{p: 1, q: 2}", "[1, 2]", g.readable(), `"ab"`, "{p: 1, ...o1}"})
 		g.push(false)
-		kw := g.pick([]string{"let", "const", "var"})
+		kw := g.kwLCV()
 		g.declLexOrVarKind(kw, kname)
 		body := g.loopBody(d, 3, label, "")
 		g.pop()
@@ -1962,15 +2180,16 @@ func (g *c01SwG) loopStmt(d int) []c01SwStmt {
 	case 3, 4: // for-of
 		src := g.iterable(ed)
 		g.push(false)
-		kw := g.pick([]string{"let", "const", "var"})
+		kw := g.kwLCV()
 		var head string
 		if g.chance(30) {
 			var names []string
+			last := g.atom(c01SwPAssign) // before the bindings exist: the iterable must not read them (TDZ)
 			pat := g.pattern(1, true, &names, g.chance(50))
 			for _, nm := range names {
 				g.declLexOrVarKind(kw, nm)
 			}
-			head = "for (" + kw + " " + pat + " of [[1, 2], {p: 1}, " + g.atom(c01SwPAssign) + "]) "
+			head = "for (" + kw + " " + pat + " of [[1, 2], {p: 1}, " + last + "]) "
 		} else if g.chance(15) {
 			head = "for (" + g.target(1) + " of " + src + ") "
 		} else {
@@ -2134,13 +2353,16 @@ func (g *c01SwG) asiStmt(d int) []c01SwStmt {
 	case 7:
 		return []c01SwStmt{{t + " = " + r + "\n--\n" + u, true}}
 	case 8:
-		if fc.canReturn {
+		if fc.canReturn && !fc.noIf && !c01SwAv("K1-return-undefined") {
 			return []c01SwStmt{{"if (" + g.cond(1) + ") { return\n" + hf + "(" + r + ") }", false}}
 		}
 		return []c01SwStmt{{t + " = " + r + "++\n" + hf + "(" + t + ")", true}}
 	case 9:
-		if fc.loops > 0 {
+		if fc.loops > 0 && !fc.noIf {
 			return []c01SwStmt{{"if (" + g.cond(1) + ") { " + g.pick([]string{"break", "continue"}) + "\n" + hf + "(" + r + ") }", false}}
+		}
+		if fc.noVar {
+			return []c01SwStmt{{t + " = " + r + "\n" + hf + "(" + g.str() + ")", true}}
 		}
 		return []c01SwStmt{{"var " + g.freshVar() + " = " + r + "\n" + hf + "(" + g.str() + ")", true}}
 	case 10:
@@ -2227,8 +2449,61 @@ func c01SweepPrograms(rng *h.RNG, n int) []string {
 
 // ---------------------------------------------------------------- hand-written programs
 
-// c01SweepFixed returns hand-written programs: the classic nasty form of each construct, one per string.
+// c01SweepFixed returns the hand-written programs that exercise none of the forms switched off in c01SwAvoid.
 func c01SweepFixed() []string {
+	var out []string
+	for _, e := range c01SweepFixedTagged() {
+		skip := false
+		for _, t := range e.Tags {
+			skip = skip || c01SwAvoid[t]
+		}
+		if !skip {
+			out = append(out, e.Src)
+		}
+	}
+	return out
+}
+
+// c01SwFixedExtra: tags that the syntactic classifier is too narrow to find (marker substring -> keys)
+var c01SwFixedExtra = []struct {
+	marker string
+	tags   []string
+}{
+	{"x=void(f(1)+1);if(g(2)+1){}", []string{"K3-pure-binary"}},
+}
+
+// c01SweepFixedTagged returns every hand-written program with the avoid keys of the known findings it exercises.
+func c01SweepFixedTagged() []struct {
+	Src  string
+	Tags []string
+} {
+	raw := c01SwFixedRaw()
+	out := make([]struct {
+		Src  string
+		Tags []string
+	}, len(raw))
+	for i, src := range raw {
+		tags := c01SwClassify(src)
+		for _, x := range c01SwFixedExtra {
+			if strings.Contains(src, x.marker) {
+				for _, t := range x.tags {
+					dup := false
+					for _, u := range tags {
+						dup = dup || u == t
+					}
+					if !dup {
+						tags = append(tags, t)
+					}
+				}
+			}
+		}
+		out[i].Src, out[i].Tags = src, tags
+	}
+	return out
+}
+
+// c01SwFixedRaw: hand-written programs, the classic nasty form of each construct, one per string.
+func c01SwFixedRaw() []string {
 	bt := "`"
 	return []string{
 		// scoping, hoisting, block flattening
@@ -2326,3 +2601,527 @@ func c01SweepFixed() []string {
 		`f(1+2,"a"+"b",1+"a",2*3,7%3,1<<2,-1>>>28,5&3,5|3,5^3,~5,!0,!1,!!"",1/3,0.1*3,1e21+1,2**53+1,"a"<"b",1/0,-1/0,0/0,1e3*1e3,0xff+1,"abc".length,"abc"[1],[1,2][1],+"12",+"",-"x",void 0===undefined)`,
 	}
 }
+
+// ---------------------------------------------------------------- classification of program texts
+
+// c01SwScan blanks the contents of string, template and regular expression literals and of comments (so that the
+// remaining text is code only) and matches brackets.  open[i] = index of the closing bracket for an opening one at i.
+func c01SwScan(src string) (code []byte, open map[int]int, close map[int]int) {
+	code = []byte(src)
+	open, close = map[int]int{}, map[int]int{}
+	var stack []int
+	prevSig := func(i int) (byte, string) { // previous significant byte and, if it ends a word, that word
+		j := i - 1
+		for j >= 0 && (code[j] == ' ' || code[j] == '\n' || code[j] == '\t' || code[j] == '\r') {
+			j--
+		}
+		if j < 0 {
+			return 0, ""
+		}
+		e := j + 1
+		for j >= 0 && (code[j] == '_' || code[j] == '$' || code[j] >= '0' && code[j] <= '9' || code[j] >= 'a' && code[j] <= 'z' || code[j] >= 'A' && code[j] <= 'Z') {
+			j--
+		}
+		return code[e-1], string(code[j+1 : e])
+	}
+	blank := func(a, b int) {
+		for k := a; k < b && k < len(code); k++ {
+			if code[k] != '\n' {
+				code[k] = ' '
+			}
+		}
+	}
+	n := len(code)
+	for i := 0; i < n; i++ {
+		c := code[i]
+		switch {
+		case c == '"' || c == '\'':
+			j := i + 1
+			for j < n && code[j] != c {
+				if code[j] == '\\' {
+					j++
+				}
+				j++
+			}
+			blank(i+1, j)
+			i = j
+		case c == '`':
+			j, depth := i+1, 0
+			for j < n {
+				if code[j] == '\\' {
+					j += 2
+					continue
+				}
+				if depth == 0 && code[j] == '`' {
+					break
+				}
+				if code[j] == '$' && j+1 < n && code[j+1] == '{' {
+					depth++
+					j += 2
+					continue
+				}
+				if depth > 0 && code[j] == '{' {
+					depth++
+				} else if depth > 0 && code[j] == '}' {
+					depth--
+				}
+				j++
+			}
+			blank(i+1, j)
+			i = j
+		case c == '/' && i+1 < n && code[i+1] == '/':
+			j := i
+			for j < n && code[j] != '\n' {
+				j++
+			}
+			blank(i, j)
+			i = j
+		case c == '/' && i+1 < n && code[i+1] == '*':
+			j := i + 2
+			for j+1 < n && !(code[j] == '*' && code[j+1] == '/') {
+				j++
+			}
+			blank(i, j+2)
+			i = j + 1
+		case c == '/':
+			p, w := prevSig(i)
+			isRe := p == 0 || strings.IndexByte("(,=:[!&|?{};+-*%<>~^", p) >= 0
+			switch w {
+			case "return", "typeof", "case", "void", "in", "of", "throw", "yield", "else", "do", "instanceof", "delete", "new":
+				isRe = true
+			}
+			if !isRe {
+				continue
+			}
+			j, cls := i+1, false
+			for j < n && code[j] != '\n' {
+				if code[j] == '\\' {
+					j += 2
+					continue
+				}
+				if code[j] == '[' {
+					cls = true
+				} else if code[j] == ']' {
+					cls = false
+				} else if code[j] == '/' && !cls {
+					break
+				}
+				j++
+			}
+			if j < n && code[j] == '/' {
+				blank(i+1, j)
+				i = j
+			}
+		case c == '(' || c == '[' || c == '{':
+			stack = append(stack, i)
+		case c == ')' || c == ']' || c == '}':
+			if len(stack) > 0 {
+				o := stack[len(stack)-1]
+				stack = stack[:len(stack)-1]
+				open[o] = i
+				close[i] = o
+			}
+		}
+	}
+	return code, open, close
+}
+
+var (
+	c01SwReStaticBlock = regexp.MustCompile(`\bstatic\s*\{`)
+	c01SwReVarDecl     = regexp.MustCompile(`\bvar\b`)
+	c01SwReVarNames    = regexp.MustCompile(`\bvar\s+([A-Za-z_$][\w$]*)`)
+	c01SwReCatch       = regexp.MustCompile(`\bcatch\s*\(\s*([A-Za-z_$][\w$]*)\s*\)`)
+	c01SwReElse        = regexp.MustCompile(`\belse\s*\{`)
+	c01SwReFlowEnd     = regexp.MustCompile(`\b(return|throw|break|continue)\b[^;{}]*;?\s*\}?\s*$`)
+	c01SwReFlowBlock   = regexp.MustCompile(`\b(return|throw|break|continue)\b[^;{}]*;?\s*$`)
+	c01SwReDeclStart   = regexp.MustCompile(`^\s*(let\b|const\b|class\b|function\b|async\s+function\b)`)
+	c01SwReDestrStart  = regexp.MustCompile(`^\s*(let|const)\s*[\[{]`)
+	c01SwReReturn      = regexp.MustCompile(`\breturn\b([^;{}]*)`)
+	c01SwReAssignName  = regexp.MustCompile(`\b([A-Za-z_$][\w$]*)\s*=[^=>]`)
+	c01SwReVoidBin     = regexp.MustCompile(`\bvoid\s*\(\s*[\w$.]+\s*(?:[-+*/%^&|]|<<|>>>?)\s*[\w$.]+\s*\)`)
+	c01SwReIfBinEmpty  = regexp.MustCompile(`\bif\s*\(\s*[\w$.]+\s*(?:[-+*/%^&|]|<<|>>>?|[<>]=?|[!=]==?)\s*[\w$.]+\s*\)\s*(?:\{\s*\}|;)`)
+	c01SwReStmtBin     = regexp.MustCompile(`(?:^|[;{}])\s*[A-Za-z_$][\w$.]*\s*(?:[-+*/%^&|]|<<|>>>?|[<>]=?|[!=]==?)\s*[A-Za-z_$][\w$.]*\s*(?:;|\}|$)`)
+	c01SwReMath        = regexp.MustCompile(`\bMath\s*\.\s*(trunc|abs|pow)\s*\(`)
+	c01SwReStaticNum   = regexp.MustCompile(`\bstatic\s+[0-9.]`)
+	c01SwReIf          = regexp.MustCompile(`\bif\s*\(`)
+	c01SwReShadowDecl  = regexp.MustCompile(`\b(var|let|const)\s+(?:[\w$]+\s*(?:=[^,;]*)?,\s*)*(undefined|NaN|Infinity)\b`)
+	c01SwReShadowParam = regexp.MustCompile(`(?:^|[(,{\[:]|\.\.\.)\s*(undefined|NaN|Infinity)\s*(?:$|[,)=}\]])`)
+	c01SwReLineCont    = regexp.MustCompile("(?:\"(?:\\\\\\r?\\n)+\"|'(?:\\\\\\r?\\n)+')\\s*(?:\\?[^.?]|&&|\\|\\|)|(?:!|\\bif\\s*\\(|\\bwhile\\s*\\()\\s*(?:\"(?:\\\\\\r?\\n)+\"|'(?:\\\\\\r?\\n)+')")
+	c01SwReBlockHead   = regexp.MustCompile(`\b(if|for|while|catch)\s*$`)
+	c01SwReWordEnd     = regexp.MustCompile(`\b(else|do|try|finally)\s*$`)
+	c01SwReExprStmt    = regexp.MustCompile(`^\s*(var|let|const|if|for|while|do|switch|try|return|throw|break|continue|function|class|async)\b`)
+)
+
+// c01SwTopSplit splits text at top-level (bracket depth 0) separator bytes.
+func c01SwTopSplit(text string, seps string) []string {
+	var out []string
+	depth, start := 0, 0
+	for i := 0; i < len(text); i++ {
+		switch c := text[i]; {
+		case c == '(' || c == '[' || c == '{':
+			depth++
+		case c == ')' || c == ']' || c == '}':
+			depth--
+		case depth == 0 && strings.IndexByte(seps, c) >= 0:
+			out = append(out, text[start:i])
+			start = i + 1
+		}
+	}
+	return append(out, text[start:])
+}
+
+func c01SwNonEmpty(parts []string) []string {
+	var out []string
+	for _, p := range parts {
+		if strings.TrimSpace(p) != "" {
+			out = append(out, p)
+		}
+	}
+	return out
+}
+
+// c01SwClassify returns the avoid keys whose narrow syntactic trigger the program text matches (it errs on the side
+// of not matching).  It is meant for programs that already failed, to attribute the failure to a known finding.
+func c01SwClassify(src string) []string {
+	codeB, open, closeM := c01SwScan(src)
+	code := string(codeB)
+	found := map[string]bool{}
+	wordIn := func(text, name string) bool {
+		return regexp.MustCompile(`(^|[^\w$.])` + regexp.QuoteMeta(name) + `($|[^\w$])`).MatchString(text)
+	}
+	// blocks: classification of every `{…}` by what precedes it
+	isStmtBlock := func(o int) (kind string, ok bool) { // kind: "loop", "else", "if", "other"
+		before := code[:o]
+		tb := strings.TrimRight(before, " \n\t\r")
+		if tb == "" {
+			return "other", true
+		}
+		if m := c01SwReWordEnd.FindStringSubmatch(before); m != nil {
+			if m[1] == "else" {
+				return "else", true
+			}
+			if m[1] == "do" {
+				return "loop", true
+			}
+			return "other", true
+		}
+		switch tb[len(tb)-1] {
+		case ')':
+			po, ok := closeM[len(tb)-1]
+			if !ok {
+				return "", false
+			}
+			if m := c01SwReBlockHead.FindStringSubmatch(code[:po]); m != nil {
+				switch m[1] {
+				case "for", "while":
+					return "loop", true
+				case "if":
+					return "if", true
+				}
+				return "other", true
+			}
+			return "", false
+		case '{', '}', ';':
+			return "other", true
+		}
+		return "", false
+	}
+	// direct statements of a block
+	direct := func(o, c int) []string { return c01SwNonEmpty(c01SwTopSplit(code[o+1:c], ";\n")) }
+	hasDirectDecl := func(o, c int) bool {
+		inner := code[o+1 : c]
+		depth := 0
+		for i := 0; i < len(inner); i++ {
+			switch inner[i] {
+			case '(', '[', '{':
+				depth++
+			case ')', ']', '}':
+				depth--
+			}
+			if depth == 0 && (i == 0 || strings.IndexByte(";{}\n", inner[i]) >= 0 || inner[i-1] == ';' || inner[i-1] == '}' || inner[i-1] == '\n') {
+				rest := inner[i:]
+				if i > 0 || true {
+					rest = strings.TrimLeft(rest, ";}\n \t")
+				}
+				if c01SwReDeclStart.MatchString(rest) {
+					return true
+				}
+			}
+		}
+		return false
+	}
+	// static blocks
+	for _, m := range c01SwReStaticBlock.FindAllStringIndex(code, -1) {
+		o := m[1] - 1
+		c, ok := open[o]
+		if !ok {
+			continue
+		}
+		inner := code[o+1 : c]
+		// blank the bodies of nested functions: a `var` there is function scoped
+		ib := []byte(inner)
+		for bo, bc := range open {
+			if bo <= o || bc >= c || code[bo] != '{' {
+				continue
+			}
+			tb := strings.TrimRight(code[:bo], " \n\t\r")
+			isFn := strings.HasSuffix(tb, "=>")
+			if strings.HasSuffix(tb, ")") {
+				if po, ok := closeM[len(tb)-1]; ok && !c01SwReBlockHead.MatchString(code[:po]) && !regexp.MustCompile(`\b(switch|with)\s*$`).MatchString(code[:po]) {
+					isFn = true
+				}
+			}
+			if isFn {
+				for k := bo + 1; k < bc; k++ {
+					ib[k-o-1] = ' '
+				}
+			}
+		}
+		inner = string(ib)
+		if c01SwReVarDecl.MatchString(inner) {
+			found["S5-static-var"] = true
+		}
+		if hasDirectDecl(o, c) {
+			found["S12-static-lexical"] = true
+		}
+		outer := code[:o] + code[c:]
+		for _, vm := range c01SwReVarNames.FindAllStringSubmatch(outer, -1) {
+			if regexp.MustCompile(`(^|[^\w$.])` + regexp.QuoteMeta(vm[1]) + `\s*(=[^=]|\+\+|--|[-+*/%&|^]=)`).MatchString(inner) {
+				found["S5-static-var"] = true
+			}
+		}
+		if c01SwReIf.MatchString(inner) {
+			found["S6-static-if"] = true
+		}
+	}
+	if c01SwReStaticNum.MatchString(code) {
+		found["S4-static-num"] = true
+	}
+	// catch parameter redeclared by var
+	for _, m := range c01SwReCatch.FindAllStringSubmatch(code, -1) {
+		if regexp.MustCompile(`\bvar\s+(?:[\w$]+\s*(?:=[^,;]*)?,\s*)*` + regexp.QuoteMeta(m[1]) + `\b`).MatchString(code) {
+			found["S8-catch-var"] = true
+		}
+	}
+	// S11: else { decl … } after a branch that ends in a flow statement, or if (…) { decl … } else <flow>
+	for _, m := range c01SwReElse.FindAllStringIndex(code, -1) {
+		o := m[1] - 1
+		c, ok := open[o]
+		if !ok {
+			continue
+		}
+		before := strings.TrimRight(code[:m[0]], " \n\t\r")
+		thenFlow := c01SwReFlowEnd.MatchString(before)
+		if thenFlow && hasDirectDecl(o, c) {
+			found["S11-else-lexical"] = true
+		}
+		// the else block itself ends in a flow statement and the then-block declares directly
+		inner := strings.TrimRight(code[o+1:c], " \n\t\r;")
+		if c01SwReFlowBlock.MatchString(inner) && strings.HasSuffix(before, "}") {
+			if to, ok := closeM[len(before)-1]; ok && hasDirectDecl(to, len(before)-1) {
+				found["S11-else-lexical"] = true
+			}
+		}
+	}
+	if m := regexp.MustCompile(`\}\s*else\s+(return|throw|break|continue)\b`).FindAllStringIndex(code, -1); m != nil {
+		for _, mm := range m {
+			if to, ok := closeM[mm[0]]; ok && hasDirectDecl(to, mm[0]) {
+				found["S11-else-lexical"] = true
+			}
+		}
+	}
+	// blocks: S3, S10
+	for o, c := range open {
+		if code[o] != '{' {
+			continue
+		}
+		kind, ok := isStmtBlock(o)
+		if !ok {
+			continue
+		}
+		st := direct(o, c)
+		if len(st) != 1 {
+			continue
+		}
+		if bo := strings.IndexByte(st[0], '{'); bo >= 0 && !c01SwReDestrStart.MatchString(st[0]) {
+			// `class C{…}h()` / `function t(){…}x` are two statements without a separator
+			depth, end := 0, -1
+			for i := bo; i < len(st[0]) && end < 0; i++ {
+				switch st[0][i] {
+				case '{':
+					depth++
+				case '}':
+					depth--
+					if depth == 0 {
+						end = i
+					}
+				}
+			}
+			if end >= 0 && strings.TrimSpace(st[0][end+1:]) != "" {
+				continue
+			}
+		}
+		if c01SwReDestrStart.MatchString(st[0]) {
+			found["S3-destructure-block"] = true
+		}
+		if (kind == "loop" || kind == "else") && c01SwReDeclStart.MatchString(st[0]) {
+			found["S10-lone-decl"] = true
+		}
+	}
+	// K1: return a,b,undefined / expression statements followed by return undefined | void 0 | return;
+	for _, m := range c01SwReReturn.FindAllStringSubmatchIndex(code, -1) {
+		arg := code[m[2]:m[3]]
+		if nl := strings.IndexByte(arg, '\n'); nl >= 0 && strings.TrimSpace(arg[:nl]) == "" {
+			arg = "" // restricted production: `return ⏎ x` returns nothing
+		}
+		items := c01SwTopSplit(arg, ",")
+		last := strings.TrimSpace(items[len(items)-1])
+		last = strings.Trim(last, "() ")
+		undef := last == "" || last == "undefined" || last == "void 0"
+		if !undef {
+			continue
+		}
+		if len(items) >= 3 {
+			found["K1-return-undefined"] = true
+			continue
+		}
+		if len(items) > 1 {
+			continue
+		}
+		// only at the end of a function body: what follows is `}` (after optional `;` and var declarations)
+		after := strings.TrimLeft(code[m[3]:], "; \n\t\r")
+		if !strings.HasPrefix(after, "}") {
+			continue
+		}
+		// preceding statements of the same list
+		j := m[0] - 1
+		depth := 0
+		for j >= 0 {
+			if code[j] == ')' || code[j] == ']' || code[j] == '}' {
+				depth++
+			} else if code[j] == '(' || code[j] == '[' || code[j] == '{' {
+				if depth == 0 {
+					break
+				}
+				depth--
+			}
+			j--
+		}
+		prev := c01SwNonEmpty(c01SwTopSplit(code[j+1:m[0]], ";\n"))
+		nexpr := 0
+		for k := len(prev) - 1; k >= 0; k-- {
+			if c01SwReExprStmt.MatchString(prev[k]) || strings.HasSuffix(strings.TrimSpace(prev[k]), "}") {
+				break
+			}
+			nexpr++
+		}
+		if nexpr >= 2 {
+			found["K1-return-undefined"] = true
+		}
+	}
+	// K2: assignment to F inside the condition of c ? F(x) : F(y) / if (c) F(x); else F(y)
+	seenName := map[string]bool{}
+	for _, m := range c01SwReAssignName.FindAllStringSubmatch(code, -1) {
+		nm := m[1]
+		if seenName[nm] {
+			continue
+		}
+		seenName[nm] = true
+		q := regexp.QuoteMeta(nm)
+		if regexp.MustCompile(`(^|[^\w$.])`+q+`\s*=[^=>][^;{}]*\?\s*`+q+`\s*\([^;{}]*:\s*`+q+`\s*\(`).MatchString(code) ||
+			regexp.MustCompile(`\bif\s*\([^;{}]*(^|[^\w$.])`+q+`\s*=[^=>][^;{}]*\)\s*(return\s+)?`+q+`\s*\([^;{}]*\)\s*;?\s*(else\s*)?(return\s+)?`+q+`\s*\(`).MatchString(code) {
+			found["K2-call-merge"] = true
+		}
+	}
+	// K3
+	if c01SwReVoidBin.MatchString(code) || c01SwReIfBinEmpty.MatchString(code) || c01SwReStmtBin.MatchString(code) {
+		found["K3-pure-binary"] = true
+	}
+	if c01SwReMath.MatchString(code) {
+		found["K4-math"] = true
+	}
+	// function heads: S1, S7 (parameters)
+	for o, c := range open {
+		if code[o] != '(' {
+			continue
+		}
+		after := strings.TrimLeft(code[c+1:], " \n\t\r")
+		arrow := strings.HasPrefix(after, "=>")
+		if !arrow && !strings.HasPrefix(after, "{") {
+			continue
+		}
+		if !arrow {
+			if c01SwReBlockHead.MatchString(code[:o]) || regexp.MustCompile(`\b(switch|with)\s*$`).MatchString(code[:o]) {
+				continue
+			}
+		}
+		params := code[o+1 : c]
+		var body string
+		if arrow {
+			rest := strings.TrimLeft(after[2:], " \n\t\r")
+			if strings.HasPrefix(rest, "{") {
+				bo := len(code) - len(rest)
+				if bc, ok := open[bo]; ok {
+					body = code[bo : bc+1]
+				}
+			} else {
+				end := strings.IndexAny(rest, ";\n")
+				if end < 0 {
+					end = len(rest)
+				}
+				body = rest[:end]
+			}
+		} else {
+			bo := len(code) - len(after)
+			if bc, ok := open[bo]; ok {
+				body = code[bo : bc+1]
+			}
+		}
+		for _, prm := range c01SwTopSplit(params, ",") {
+			if c01SwReShadowParam.MatchString(prm) {
+				found["S7-shadow-global"] = true
+			}
+			eq := -1
+			depth := 0
+			for i := 0; i < len(prm) && eq < 0; i++ {
+				switch prm[i] {
+				case '(', '[', '{':
+					depth++
+				case ')', ']', '}':
+					depth--
+				case '=':
+					if depth == 0 && i+1 < len(prm) && prm[i+1] != '=' && prm[i+1] != '>' {
+						eq = i
+					}
+				}
+			}
+			if eq < 0 {
+				continue
+			}
+			nm := strings.TrimSpace(prm[:eq])
+			if !regexp.MustCompile(`^[A-Za-z_$][\w$]*$`).MatchString(nm) {
+				continue
+			}
+			if !wordIn(body, nm) || wordIn(body, "arguments") {
+				found["S1-param-default"] = true
+			}
+		}
+	}
+	if c01SwReShadowDecl.MatchString(code) {
+		found["S7-shadow-global"] = true
+	}
+	if c01SwReLineCont.MatchString(src) {
+		found["S9-line-continuation"] = true
+	}
+	var out []string
+	for _, k := range c01SwKeys2 {
+		if found[k] {
+			out = append(out, k)
+		}
+	}
+	return out
+}
+
+// c01SwKeys2 lists the avoid keys in reporting order.
+var c01SwKeys2 = []string{"S1-param-default", "S3-destructure-block", "S4-static-num", "S5-static-var", "S6-static-if", "S7-shadow-global", "S8-catch-var",
+	"S9-line-continuation", "S10-lone-decl", "S11-else-lexical", "S12-static-lexical", "K1-return-undefined", "K2-call-merge", "K3-pure-binary", "K4-math"}
